@@ -37,8 +37,11 @@ CMax    == <<127, 127, 127, 127, 127, 127, 127, 127, 127, 1>>   \* 2^64 - 1
 (* ---- encoder ---------------------------------------------------------- *)
 EncAttrSpec(a) == UlebNat(a.name) \o UlebNat(a.form) \o
                   (IF "ic" \in DOMAIN a THEN a.ic ELSE <<>>)
-RECURSIVE EncAttrSpecs(_)
-EncAttrSpecs(as) == IF as = <<>> THEN <<0, 0>> ELSE EncAttrSpec(Head(as)) \o EncAttrSpecs(Tail(as))
+RECURSIVE EncAttrSpecRange(_, _, _)
+EncAttrSpecRange(as, lo, hi) ==                       \* by halves: O(n log n) copying for long lists
+    IF lo > hi THEN <<>> ELSE IF lo = hi THEN EncAttrSpec(as[lo])
+    ELSE LET mid == (lo + hi) \div 2 IN EncAttrSpecRange(as, lo, mid) \o EncAttrSpecRange(as, mid + 1, hi)
+EncAttrSpecs(as) == EncAttrSpecRange(as, 1, Len(as)) \o <<0, 0>>
 EncDecl(d) == UlebOfDigits(d.code) \o UlebNat(d.tag) \o <<IF d.hc THEN 1 ELSE 0>> \o EncAttrSpecs(d.attrs)
 RECURSIVE EncDecls(_)
 EncDecls(ds) == IF ds = <<>> THEN <<>> ELSE EncDecl(Head(ds)) \o EncDecls(Tail(ds))
